@@ -5,7 +5,7 @@ import numpy as np
 import verde as vd
 from hypothesis import strategies as st
 
-from vlib import blocks, gen
+from vlib import blocks, build, gen
 from vlib.oracles import EPS
 from vlib.runner import Sub, Violation
 
@@ -56,17 +56,16 @@ def cases(draw):
     order = draw(st.permutations(range(len(pts))))
     pts = [pts[k] for k in order]
     shape = draw(st.sampled_from(blocks.shape_options(len(pts))))
-    return dict(layout=lay, points=pts, shape=shape, order=draw(st.sampled_from(["C", "F"])), kinds=sorted(set(kinds)),
+    return dict(layout=lay, points=pts, shape=shape, order=draw(st.sampled_from(build.ORDERS)), order2=draw(st.sampled_from(build.ORDERS)), kinds=sorted(set(kinds)),
                 extra=draw(st.booleans()))
 
 
 def check(case, ctx):
     lay, pts = case["layout"], case["points"]
     xy = [blocks.point_xy(lay, p) for p in pts]
-    e = np.array([p[0] for p in xy]).reshape(case["shape"])
-    n = np.array([p[1] for p in xy]).reshape(case["shape"])
-    if case["order"] == "F" and e.ndim == 2:
-        e, n = np.asfortranarray(e), np.asfortranarray(n)
+    lay_ = build.Lay([case["order"], case.get("order2", case["order"])])
+    e = lay_([p[0] for p in xy], case["shape"])
+    n = lay_([p[1] for p in xy], case["shape"])
     coords = (e, n) + ((np.arange(e.size, dtype="float64").reshape(e.shape),) if case["extra"] else ())
     kw = blocks.verde_kwargs(lay)
     block_coords, labels = vd.block_split(coords, **kw)
